@@ -3,6 +3,7 @@ import Verif.Spec.JsGrammar
 import Verif.Proofs.JsMinSound
 import Verif.Proofs.JsMinMono
 import Verif.Proofs.JsStmtSound
+import Verif.Proofs.JsPrintGwf
 set_option linter.unusedSimpArgs false
 /-!
 # C01 — JS minification preserves program behaviour (partial: the fragment of `Spec.JsSyntax`)
@@ -47,6 +48,57 @@ theorem unary_tables (o : UOp) :
     o.prec = (if isUpdateOp o then lvUpdate else lvUnary) ∧
     o.argPrec = (if o = .postinc ∨ o = .postdec then lvLHS else lvUnary) := by
   cases o <;> decide
+
+/-! ## A.2 the printed tokens derive the printed tree
+
+`wfGo e`: every child of every node of `e` is a group or has (Go) precedence ≥ the (Go) precedence its position
+requires — the shape of the parser's output.  `printT` is the printer alone (group dropping iff `p ≤ prec inner`,
+literal lowering).  `DerivesA p ts t`: `t` is a derivation tree of the ECMA-262 expression grammar (`&&`, `||`, `??`
+read as associative, see `assoc_*`) from a nonterminal of level ≥ `p`, with terminal string `ts`. -/
+
+/-- the tokens the printer writes (`yield t`) derive its output tree `t`: every parenthesis that was dropped was
+    redundant, every literal lowering and print-time rewrite is grammatical in its context -/
+theorem print_derives (fuel : Nat) (e : E) (p : Prec) (t : E) (hp : p ≤ opCall)
+    (hw : Verif.Proofs.JsPrintGwf.wfGo e = true) (hf : Verif.Proofs.JsPrintGwf.FitsIn p e = true)
+    (h : printT fuel e p = some t) : DerivesA p (yield t) t := by
+  have hp' : p ≤ 17 := by
+    have : opCall = 17 := by decide
+    rw [this] at hp; exact hp
+  have inv := Verif.Proofs.JsPrintGwf.printT_gwf fuel e p t hp' hw hf h
+  exact ⟨inv.g, inv.lv, rfl⟩
+
+/-- assignment targets stay assignment targets -/
+theorem print_target (fuel : Nat) (e : E) (p : Prec) (t : E) (hp : p ≤ opCall)
+    (hw : Verif.Proofs.JsPrintGwf.wfGo e = true) (hf : Verif.Proofs.JsPrintGwf.FitsIn p e = true)
+    (h : printT fuel e p = some t) (ha : assignable e = true) : isTarget t = true := by
+  have hp' : p ≤ 17 := by
+    have : opCall = 17 := by decide
+    rw [this] at hp; exact hp
+  exact (Verif.Proofs.JsPrintGwf.printT_gwf fuel e p t hp' hw hf h).tg ha
+
+/-- reading `&&` as associative does not change the meaning: `a&&(b&&c)` and `(a&&b)&&c` behave alike -/
+theorem assoc_land (H : Host) (a b c : E) :
+    eval H (.bin .land a (.bin .land b c)) = eval H (.bin .land (.bin .land a b) c) := by
+  simp only [Verif.Proofs.JsSemLemmas.eval_land, Verif.Proofs.JsSemLemmas.bindM_assoc]
+  apply Verif.Proofs.JsSemLemmas.bindM_congr; intro v
+  by_cases hv : truthy v = true <;> simp [hv]
+
+theorem assoc_lor (H : Host) (a b c : E) :
+    eval H (.bin .lor a (.bin .lor b c)) = eval H (.bin .lor (.bin .lor a b) c) := by
+  simp only [Verif.Proofs.JsSemLemmas.eval_lor, Verif.Proofs.JsSemLemmas.bindM_assoc]
+  apply Verif.Proofs.JsSemLemmas.bindM_congr; intro v
+  by_cases hv : truthy v = true <;> simp [hv]
+
+theorem assoc_nullish (H : Host) (a b c : E) :
+    eval H (.bin .nullish a (.bin .nullish b c)) = eval H (.bin .nullish (.bin .nullish a b) c) := by
+  simp only [Verif.Proofs.JsSemLemmas.eval_nullish, Verif.Proofs.JsSemLemmas.bindM_assoc]
+  apply Verif.Proofs.JsSemLemmas.bindM_congr; intro v
+  by_cases hv : isNullish v = true <;> simp [hv]
+
+example : Verif.Proofs.JsPrintGwf.wfGo (.bin .mul (.group (.bin .add (.var "a") (.var "b"))) (.var "c")) = true ∧
+    printT 9 (.bin .mul (.group (.bin .add (.var "a") (.var "b"))) (.var "c")) 1
+      = some (.bin .mul (.group (.bin .add (.var "a") (.var "b"))) (.var "c")) := by
+  constructor <;> rfl
 
 /-! ## B. the expression rewrites preserve behaviour
 
